@@ -161,6 +161,18 @@ PROPS = {
         "rule": "one case = one truncated addition; shapes h/hm/hms/m/ms/s/none x day designators incl. day 29-31, 366, week 53; all non-trivial",
         "assumptions": TRUST,
     },
+    "C07": {
+        "technique": "TLA+ notation spec (Text.tla) model-checked for unambiguity with TLC; TLC-generated (date x time x zone) form cross product replayed into the real parser; TLC trace validation of decoded fields and dump-as-parsed text",
+        "level_text": "Text.tla transcribes the documented notation; TLC checks over a boundary universe that no two well-formed expressions with "
+                      "the same text denote different values, and emits every form combination (and the mixed basic/extended ones that must be "
+                      "refused). For each, boundary and swept field values are rendered, parsed by the real TimePointParser under varying "
+                      "configurations (expanded digits, basic-only, assumed / unknown / system zone), and TLC requires: the text is what the spec "
+                      "renders, the decoded representation/fields/fraction/offset are exactly the generated ones, and dump-as-parsed reproduces the input.",
+        "drivers": ["c07"], "mc": [{"module": "MC_C07.tla", "cfg": "MC_C07.cfg"}], "expect_ops": ["ParseTP"],
+        "rule": "one case = one text under one parser configuration; all cases use boundary-biased values (non-trivial)",
+        "exhaustive_part": {"quick": "all form combinations x 30 value draws; every year 0000-9999 in CCYY-MM-DD", "thorough": "all form combinations x 500 draws; every year 0000-9999 in 6 forms; years -20000..20000 with 2 extra digits"},
+        "assumptions": TRUST,
+    },
     "C03": {
         "technique": "TLA+ calendar definition (Cal.tla) model-checked with TLC (+ Apalache lemmas) and TLC trace validation of every conversion row of the real helpers",
         "level_text": "Cal.tla is the proleptic definition; TLC checks it is self-consistent (inverse pairs, week rule, lengths) on every day "
